@@ -100,6 +100,21 @@ func main() {
 			}
 			e.Meta["parallel_runs"] = nPar
 		}
+		// deterministic class (after every class that draws from e.Rnd): callbacks that fail AND hand back a value
+		if !e.Search || focus == "" || strings.HasPrefix(focus, "seq/") {
+			nVE := 0
+			for _, s := range valueWithErrorSpecs() {
+				if timeouts >= 2*maxTimeouts {
+					break
+				}
+				obs, stopped := runSeq(s)
+				c := seqCase(s, obs, stopped)
+				c.Class = "seq/value-with-error/" + strings.TrimPrefix(c.Class, "seq/")
+				e.Emit(c)
+				nVE++
+			}
+			e.Meta["value_with_error_histories"] = nVE
+		}
 		e.Meta["expired_10s_bounds"] = timeouts
 		if (e.Thorough || e.Search) && !strings.HasPrefix(focus, "seq/") {
 			// complete enumeration of the schedules of a few small programs
